@@ -160,6 +160,11 @@ def run(rep, wd, tier, seed):
     rep.extra['histories_from_tlc'] = len(hs)
     rep.extra['distinct_length_histories'] = len(seen)
     traces = vbsc.parallel(_drive, jobs)
+    from . import isocheck
+    tj = [(j[0], 100000 + j[1], j[2], j[3], False) for j in jobs[:: max(1, len(jobs) // 120)]]
+    touts = isocheck.threaded('harness.c11', '_drive', tj, procs=2)
+    isocheck.mark_threaded([touts])
+    traces += touts
     rep.sample({'behaviour': traces[0]['_desc']})
     rep.sample({'behaviour': traces[-1]['_desc']})
     batches = core.split(traces, core.NCPU)
